@@ -5,10 +5,10 @@ Require Extraction.
 Require Import ExtrOcamlBasic.
 From Coq Require Import ZArith List.
 From SVC Require Import Base.AMap Base.Res Base.Dec Model.Types Model.Pricing
-  Model.Handlers Model.EndBlock Model.Step Model.ParamStep Model.Queries Model.Genesis.
+  Model.Handlers Model.EndBlock Model.Step Model.ParamStep Model.ModSvc Model.Queries Model.Genesis.
 Extraction Language OCaml.
 Set Extraction KeepSingleton.
-Extraction "model.ml" step pstep valid_params init run export_genesis prep_zero_height validate_genesis
+Extraction "model.ml" step pstep xstep valid_params init run export_genesis prep_zero_height validate_genesis
   import_genesis init_genesis zero_height_export get_price exchanged_price min_deposit disc_time disc_vol
   parse_pricing validate_pricing mul_trunc bal Z.add Z.mul Z.div Z.modulo Z.of_nat Z.to_nat Z.opp
   Z.eqb Z.ltb Z.leb Pos.add Pos.mul
